@@ -179,7 +179,21 @@ func c19Exec(c *core.Ctx, cs c19Case) {
 			}
 		}
 	}
-	c.Count("calls/Expand", len(words)*64)
+	// ... and with no positional parameters / one empty positional parameter
+	for _, w := range words {
+		for m := 0; m < 32; m++ {
+			env := interp.NewExecEnv("sh")
+			if m%2 == 1 {
+				env = interp.NewExecEnv("sh", "")
+			}
+			if m%3 == 0 {
+				env.Opts |= interp.NoUnset
+			}
+			_, _ = env.Expand(w, interp.ExpMode(m))
+			c.Eval(1)
+		}
+	}
+	c.Count("calls/Expand", len(words)*96)
 	c01Quiesce(c)
 	if nodes >= 3 {
 		c.Distinct(string(cs.Src))
@@ -250,7 +264,7 @@ func init() {
 		ID:          "C19",
 		Level:       "exploration",
 		Technique:   "runtime monitoring: panic / process-death monitor in isolated workers over the downstream entry points (Pos/End of every node, Fprint under the 256 Configs, Expand under all 32 mode combinations x NoGlob, Eval, Match, Glob, Option.String), fed with every accepted input of the C01 corpora; both panicnil settings",
-		Rule:        "cases: every string of <=3 tokens of the C01 alphabet (blank-joined and glued), every string of <=4 (thorough <=5) significant characters, 1500 (thorough 30000) generated programs and 12 byte mutations of each — each accepted one is walked (Pos/End of every node), printed under all 256 Configs (every 5th for long sources) and every word expanded under 32 modes x NoGlob on/off; Eval on every string of <=3 (thorough <=4) symbols of a 24-symbol arithmetic alphabet, Match (16 mode values x 7 subjects) and Glob on every string of <=3 (thorough <=4) symbols of a 16-symbol pattern alphabet incl. an invalid UTF-8 byte, random byte strings, and all 2^14 Option values. distinct_nontrivial = distinct accepted sources with >=3 nodes.",
+		Rule:        "cases: every string of <=3 tokens of the C01 alphabet (blank-joined and glued), every string of <=4 (thorough <=5) significant characters, 1500 (thorough 30000) generated programs and 12 byte mutations of each — each accepted one is walked (Pos/End of every node), printed under all 256 Configs (every 5th for long sources) and every word expanded under 32 modes x NoGlob on/off (two positional parameters; hostile IFS / values with invalid UTF-8 in a quarter of them) and under 32 modes with no / one empty positional parameter; Eval on every string of <=3 (thorough <=4) symbols of a 24-symbol arithmetic alphabet, Match (16 mode values x 7 subjects) and Glob on every string of <=3 (thorough <=4) symbols of a 16-symbol pattern alphabet incl. an invalid UTF-8 byte, random byte strings, and all 2^14 Option values. distinct_nontrivial = distinct accepted sources with >=3 nodes.",
 		Assumptions: []string{"absence of panic is the oracle; error values of undocumented type are counted as notes"},
 		GoDebug:     []string{"panicnil=0", "panicnil=1"},
 		Gen:         c19Gen,
